@@ -23,7 +23,10 @@ COQ_TARGETS = ['theories/Front/C06Harness.vo']
 TRUSTED = ['py/checks/C06.py spec_* functions: the mathematical meaning of each operator (plain Python ints; '
            'slicing oracle = Python list slicing of the LSB-first bit list; constants = documented '
            'infer_val_and_bitwidth rules re-implemented independently)',
-           'coq/theories/Front/Signed.v to_signed and Props/C06.v statements (two\'s complement reading)']
+           'coq/theories/Front/Signed.v to_signed; Front/PySliceProofs.v is_slice_of (declarative Python slicing); '
+           'Front/BarrelProofs.v shl_fill/shr_fill; Props/C06.v statements',
+           'Front/SrcTie.v op_char: LogicNet op characters of the ten two-operand operators (core.py)',
+           'py/genfrag_C06.py (uses py/pyfrag.py): Gen/C06Src.v = _two_var_op length rule, _convert_int, _convert_bool']
 ASSUMPTIONS = ['operand WireVectors carry values in [0, 2^bitwidth) (guaranteed by Simulation, C01/C15)',
                'shift amounts given as Verilog strings / bools are outside the property (wire or int only)',
                'the text -> (sign, width, number) parsing of Verilog-style strings is C16\'s subject; here the '
@@ -513,7 +516,7 @@ def make_jobs(ctx, only=None):
     big = [6, 7, 8, 9, 15, 16, 17, 31, 32, 33, 63, 64, 65, 100, 127, 128, 129, 130]
     amt = [1, 2, 3, 4, 5, 6, 7, 8, 9, 10]
     rng = ctx.sub_rng('bigpairs')
-    npairs, nval, nun = (12, 3, 4) if tier == 'quick' else (90, 8, 24)
+    npairs, nval, nun = (10, 3, 2) if tier == 'quick' else (90, 8, 24)
     pairs = [(130, 130), (130, 8), (1, 130), (64, 65), (33, 7), (128, 9)]
     while len(pairs) < npairs:
         c = rng.random()
@@ -541,12 +544,17 @@ def make_jobs(ctx, only=None):
             pts = (keep + rest)[:cap]
             pts = list(dict.fromkeys(pts))
         jobs.append(Job('binary', binary_instances(wa, wb), wa, wb, pts, False))
-    uw = [6, 8, 17, 33, 64, 65, 127, 128, 130] if tier == 'quick' else big + [5 + i * 7 for i in range(1, 17)]
-    for wa in uw:
+    if tier == 'quick':
+        uw, kw = [6, 8, 17, 33, 65, 128, 130], [8, 33, 64, 130]
+    else:
+        uw = kw = big + [5 + i * 7 for i in range(1, 17)]
+    for wa in sorted(set(uw + kw)):
         r = ctx.sub_rng('bigun', wa)
         pts = [(v, None) for v in boundary(r, wa, nun)]
-        jobs.append(Job('unary', unary_instances(r, wa, tier, False), wa, None, pts, False))
-        jobs.append(Job('kinds', kind_instances(ctx.sub_rng('kinds', wa), wa, tier), wa, None, pts, False))
+        if wa in uw:
+            jobs.append(Job('unary', unary_instances(r, wa, tier, False), wa, None, pts, False))
+        if wa in kw:
+            jobs.append(Job('kinds', kind_instances(ctx.sub_rng('kinds', wa), wa, tier), wa, None, pts, False))
     if only is not None:
         jobs = [j for j in jobs if (j.tag, j.wa, j.wb) == only]
     return jobs
@@ -585,6 +593,8 @@ def run_job(ctx, job, model_rows):
             if got != exp and spec_bad is None:
                 spec_bad = (va, vb, exp, got)
             if got != exp and not (got != 'raise' and exp != 'raise' and got[0] == exp[0]):
+                if width_only:
+                    spec_bad = (va, vb, exp, got)   # prefer a point where the VALUE is wrong too
                 width_only = False
         if spec_bad is not None:
             va, vb, exp, got = spec_bad
